@@ -771,20 +771,40 @@ type idleTracker struct {
 	gid   uint64
 }
 
-// selectInKvstore: the innermost non-runtime frame of the parked goroutine is a function of package
-// kvstore, i.e. the select statement itself is the writer's (not one in the store or the harness).
-func selectInKvstore(g gdump.G) bool {
+// parked: the goroutine is in a blocking wait of any kind – channel send/receive, select, mutex,
+// RWMutex, Cond, WaitGroup, semaphore, … No rule depends on WHICH primitive it is: everything that
+// is not known to be running, runnable, sleeping on a timer of its own (harness jitter) or in a
+// system call counts as parked, including states this code has never seen.
+func parked(g gdump.G) bool {
+	switch st := g.State; {
+	case st == "", st == "running", st == "runnable", st == "syscall", st == "sleep", st == "IO wait",
+		st == "preempted", st == "copystack", strings.HasPrefix(st, "GC "), strings.HasPrefix(st, "finalizer"):
+		return false
+	}
+	return true
+}
+
+// libParked: parked, and the innermost frame that belongs to the harness or to hive.go is a function
+// of package kvstore – i.e. the wait is the library's own (directly or through sync/runtime), not a
+// gate, hook, object method or store of the harness, nor the backing store.
+func libParked(g gdump.G) bool {
+	if !parked(g) {
+		return false
+	}
 	for _, f := range g.Frames {
-		if strings.HasPrefix(f, "runtime.") {
-			continue
+		if strings.HasPrefix(f, "main.") || strings.Contains(f, "iotaledger/hive.go/") {
+			return strings.HasPrefix(f, kvPkg)
 		}
-		return strings.HasPrefix(f, kvPkg)
 	}
 	return false
 }
 
+// inCall: the goroutine is inside the exported BatchedWriter method (identified by the exported
+// frame only; callers are harness goroutines known by id).
+func inCall(g gdump.G, method string) bool { return g.Has("kvstore.(*BatchedWriter)." + method) }
+
 func (it *idleTracker) observe(m *mon, wg gdump.G, alive bool) time.Duration {
-	if !alive || wg.State != "select" || !selectInKvstore(wg) {
+	if !alive || !libParked(wg) {
 		it.since = time.Time{}
 		return 0
 	}
@@ -796,13 +816,12 @@ func (it *idleTracker) observe(m *mon, wg gdump.G, alive bool) time.Duration {
 	return time.Since(it.since)
 }
 
-func inEnqueueSend(g gdump.G) bool {
-	return g.State == "chan send" && g.Has("kvstore.(*BatchedWriter).Enqueue")
-}
+// inEnqueueSend: parked inside Enqueue, in library code (the queue send, or any other wait of the call).
+func inEnqueueSend(g gdump.G) bool { return libParked(g) && inCall(g, "Enqueue") }
 
-func inStopWait(g gdump.G) bool {
-	return g.Parked() && g.State != "select" && g.Has("sync.(*WaitGroup).Wait") && g.Has("kvstore.(*BatchedWriter).StopBatchWriter")
-}
+// inStopWait: parked inside StopBatchWriter, in library code (waiting for the writer to finish or
+// for the start/stop lock – whatever primitive the library uses for either).
+func inStopWait(g gdump.G) bool { return libParked(g) && inCall(g, "StopBatchWriter") }
 
 // applyNoWriterRules applies R1/R2 to a snapshot that shows no writer goroutine. The decision is
 // deferred while any actor is still executing (not parked) inside Enqueue: the caller that starts
@@ -813,7 +832,8 @@ func (s *scen) applyNoWriterRules(gs []gdump.G, stopHung *bool) {
 		if a.role == "main" || a.hung != "" || closed(a.done) {
 			continue
 		}
-		if g, found := gdump.Find(gs, a.gid.Load()); found && g.Has("kvstore.(*BatchedWriter).Enqueue") && !g.Parked() {
+		if g, found := gdump.Find(gs, a.gid.Load()); found && !parked(g) &&
+			(inCall(g, "Enqueue") || inCall(g, "StopBatchWriter") || inCall(g, "Flush")) {
 			return
 		}
 	}
@@ -831,10 +851,6 @@ func (s *scen) applyNoWriterRules(gs []gdump.G, stopHung *bool) {
 		case inStopWait(g):
 			a.hung, a.dump = fpStopBlocked, g.Raw
 			*stopHung = true
-		case *stopHung && strings.HasPrefix(g.State, "sync.Mutex.Lock") && g.Has("kvstore.(*BatchedWriter).StopBatchWriter"):
-			// a second Stop queued on startStopMutex behind a Stop that rule R2 decided: it
-			// waits for ever as a consequence, no finding of its own
-			a.hung = "behind-blocked-stop"
 		}
 	}
 }
@@ -847,16 +863,15 @@ func (s *scen) applyNoWriterRules(gs []gdump.G, stopHung *bool) {
 //
 //	R1 actor in BatchedWriter.Enqueue, state "chan send", no writer goroutine alive
 //	R2 actor in StopBatchWriter→WaitGroup.Wait, no writer goroutine alive
-//	R3 every caller has returned except Stop callers parked in WaitGroup.Wait (or queued behind one
-//	   on startStopMutex), and the writer is parked in collectValues' select with no writer-side
+//	R3 every caller has returned except Stop callers parked inside StopBatchWriter, and the writer is parked in collectValues' select with no writer-side
 //	   event for idleBound() (>= 500x the configured batch time-out, >= 2 s): nobody is left to send
 //	   on batchQueue or flushChan, and a pending batch timer would be overdue by that factor, so no
 //	   timer is pending and the select never returns. Unlike R1/R2 this is relative to the
 //	   configured time-out; anything short of it ends as INCONCLUSIVE through the case guard.
-//	R4 same caller condition as R3, and every writer goroutine is parked in state "chan receive"
-//	   (not select: no timer can end it) with the receive statement in package kvstore: the only
-//	   senders on the package's channels are Enqueue/Flush callers, all of which have returned, so
-//	   the receive never completes (one consistent snapshot decides).
+//	R4 is R3 with the writer seen in a plain channel receive instead of a select (a receive may be a
+//	   timer wait, so it needs the same idleBound); only the fingerprint differs.
+//	No rule looks at which primitive a goroutine waits on: callers are "parked in library code inside
+//	the exported call" (libParked + inCall), the writer is "parked in library code" (libParked).
 //	R5 bounded progress in logical steps: Stop is parked in WaitGroup.Wait, every other caller has
 //	   returned, nothing is left to do (settled: no scheduled flag set, #BatchWrite == #Done), and
 //	   the writer has since gone through more than spinBound empty Batched/Cancel cycles without
@@ -882,7 +897,7 @@ func (s *scen) finishWait() (ok bool) {
 		}
 		if wa {
 			onlyStops := true
-			var waiting, behind []*actor
+			var waiting []*actor
 			for _, a := range s.actors {
 				if a.role == "main" || a.hung != "" || closed(a.done) {
 					continue
@@ -892,29 +907,23 @@ func (s *scen) finishWait() (ok bool) {
 				case found && inStopWait(g):
 					waiting = append(waiting, a)
 					a.dump = g.Raw
-				case found && strings.HasPrefix(g.State, "sync.Mutex.Lock") && g.Has("kvstore.(*BatchedWriter).StopBatchWriter"):
-					behind = append(behind, a)
 				default:
 					onlyStops = false
 				}
 			}
 			decided := ""
-			if !onlyStops || len(behind) > 0 && len(waiting) == 0 {
+			if !onlyStops {
 				idle.observe(s.m, wg, false)
 				spinBase = -1
 			} else {
 				ws := s.liveWriters(gs)
-				allRecv := true
-				for _, g := range ws {
-					if !strings.HasPrefix(g.State, "chan receive") || !selectInKvstore(g) {
-						allRecv = false
-					}
-				}
 				switch {
-				case allRecv:
-					decided = fpStopRecv // R4
 				case idle.observe(s.m, wg, true) >= s.cs.idleBound():
-					decided = fpStopIdle // R3
+					// R3/R4: same rule, the fingerprint only names the kind of wait that was seen
+					decided = fpStopIdle
+					if strings.HasPrefix(wg.State, "chan receive") {
+						decided = fpStopRecv
+					}
 				case len(waiting) > 0 && s.settled():
 					// R5
 					if n := s.m.emptyLoops.Load(); spinBase < 0 {
@@ -933,9 +942,6 @@ func (s *scen) finishWait() (ok bool) {
 					}
 					for _, a := range waiting {
 						a.hung, a.dump = decided, a.dump+dump.String()
-					}
-					for _, a := range behind {
-						a.hung = "behind-blocked-stop"
 					}
 					s.writerIdle = true
 					// a writer that keeps cycling stays behind: this process stops after the run, the
@@ -1236,15 +1242,15 @@ func (s *scen) report(extraKey string) []string {
 	for _, a := range s.actors {
 		switch a.hung {
 		case fpEnqBlocked:
-			viol(a.hung, fmt.Sprintf("actor%d is blocked for ever in BatchedWriter.Enqueue (chan send on batchQueue) – no writer goroutine (any goroutine of package kvstore that the harness did not create) is alive and autoStartOnce prevents a restart", a.idx), a.dump)
+			viol(a.hung, fmt.Sprintf("actor%d is blocked for ever in BatchedWriter.Enqueue (parked in library code inside the call, e.g. the queue send) – no writer goroutine (any goroutine of package kvstore that the harness did not create) is alive and autoStartOnce prevents a restart", a.idx), a.dump)
 		case fpStopBlocked:
-			viol(a.hung, fmt.Sprintf("actor%d is blocked for ever in StopBatchWriter (writeWg.Wait) – no writer goroutine alive to call Done", a.idx), a.dump)
+			viol(a.hung, fmt.Sprintf("actor%d is blocked for ever in StopBatchWriter (parked waiting for the writer) – no writer goroutine alive to call Done", a.idx), a.dump)
 		case fpStopRecv:
-			viol(a.hung, fmt.Sprintf("actor%d is blocked for ever in StopBatchWriter (writeWg.Wait): every other caller has returned and the writer goroutine is parked in a plain channel receive (no select, no timer) inside package kvstore – nobody is left who could send", a.idx), a.dump)
+			viol(a.hung, fmt.Sprintf("actor%d is blocked for ever in StopBatchWriter (parked waiting for the writer): every other caller has returned and the writer goroutine sat in a plain channel receive inside package kvstore without any writer-side event for more than %s (500x the configured batch time-out, at least 2 s) – nobody is left who could send and a timer would have fired long ago", a.idx, s.cs.idleBound()), a.dump)
 		case fpStopSpin:
-			viol(a.hung, fmt.Sprintf("actor%d is blocked for ever in StopBatchWriter (writeWg.Wait): every other caller has returned, no object is scheduled and every BatchWrite was committed and acknowledged, yet the writer went through more than %d further empty Batched/Cancel cycles without exiting (unchanged tree: at most one)", a.idx, spinBound), a.dump)
+			viol(a.hung, fmt.Sprintf("actor%d is blocked for ever in StopBatchWriter (parked waiting for the writer): every other caller has returned, no object is scheduled and every BatchWrite was committed and acknowledged, yet the writer went through more than %d further empty Batched/Cancel cycles without exiting (unchanged tree: at most one)", a.idx, spinBound), a.dump)
 		case fpStopIdle:
-			viol(a.hung, fmt.Sprintf("actor%d is blocked for ever in StopBatchWriter (writeWg.Wait): every other caller has returned and the writer goroutine sat in the select of collectValues without any writer-side event for more than %s (500x the configured batch time-out %s, at least 2 s) – a batch timer would have fired long ago, so none is pending", a.idx, s.cs.idleBound(), s.cs.timeout()), a.dump)
+			viol(a.hung, fmt.Sprintf("actor%d is blocked for ever in StopBatchWriter (parked waiting for the writer): every other caller has returned and the writer goroutine sat in the select of collectValues without any writer-side event for more than %s (500x the configured batch time-out %s, at least 2 s) – a batch timer would have fired long ago, so none is pending", a.idx, s.cs.idleBound(), s.cs.timeout()), a.dump)
 		}
 	}
 	c.Count("evaluations", 1)
@@ -1465,8 +1471,6 @@ func runDupFlush(c *vf.Ctx, cs *caseRec) ([]string, bool) {
 		switch {
 		case !wa:
 			served = "writer-gone"
-		case strings.HasPrefix(wg.State, "chan receive") && selectInKvstore(wg):
-			served = "writer-in-receive"
 		case s.m.emptyLoops.Load() >= l0+2:
 			served = "writer-cycled"
 		case idle.observe(s.m, wg, true) >= cs.idleBound():
